@@ -412,7 +412,7 @@ impl Prop for C13 {
     }
     fn runs(&self, tier: Tier) -> u64 {
         match tier {
-            Tier::Quick => 20_000,
+            Tier::Quick => 30_000,
             Tier::Thorough => 400_000,
         }
     }
